@@ -248,6 +248,8 @@ func equals(t types.Type, x, y value) bool {
 		return x.eq(t, y)
 	case rvalue:
 		return x.eq(y.(rvalue))
+	case *chanv:
+		return x == y.(*chanv)
 	case unsafe.Pointer:
 		return x == y.(unsafe.Pointer)
 	case sym:
